@@ -22,6 +22,7 @@ EXPLANATION = (
     'an abandoned operation — known finding K2; (R6) a completion that names a pool buffer (buf_id() is Some) '
     'always hands it to a ReadBuf: no extra condition between the id and buffer_init/new_buffer. Conservation '
     'over histories (a counting argument over run-time state) is not decided.'
+    ' Also decided: (R4 buf_id/polarity) Some(id) is built on the edge where IORING_CQE_F_BUFFER is set; (R7) ReadBufPool::new publishes the initial ring tail (pool_size, Release) after the entries on every path that returns the pool.'
 )
 NOT_DECIDED = "conservation over all histories; concurrent releases beyond the lock region structure"
 ASSUMPTIONS = ["the kernel consumes pool ring entries in [head, tail) only", "std Mutex semantics"]
